@@ -64,8 +64,8 @@ func protectedLeaf(leaf string) bool {
 	if scratchGhost(leaf) {
 		return false
 	}
-	for _, p := range []string{"G:" + r + ".ghost.", "F:" + r + ".Entry.", "F:" + r + ".dualWriter.", "F:" + r + ".logwr.", "F:" + r + ".filewr.",
-		"E:" + r + ".LogWriter", "M:map[" + r + ".Level]", "M:map[string]" + r + ".Level", "M:map[int]map[" + r + ".Level]", "M:map[string]*" + r + ".Entry."} {
+	for _, p := range []string{"G:" + r + ".ghost.", "F:" + r + ".Entry.", "F:" + r + ".dualWriter.", "F:" + r + ".logwr.", "F:" + r + ".filewr.", "F:" + r + ".handler4LogSlog.", "F:" + r + ".handlerWriter.",
+		"E:" + r + ".LogWriter", "M:map[" + r + ".Level]", "M:map[string]" + r + ".Level", "M:map[int]map[" + r + ".Level]", "M:map[string]*" + r + ".Entry.", "M:map[log/slog.Level]" + r + ".Level."} {
 		if strings.HasPrefix(leaf, p) {
 			return true
 		}
@@ -493,6 +493,16 @@ func (c *Ctx) H(st *State, leaf, sort string) string {
 			nx = c.epochNext[ep]
 		}
 		c.refBoundAxiom(name, leaf, sort, nx)
+		if st.epochOf(leaf) == 0 && c.fn != nil && c.fn.Synthetic == "package initializer" && c.fn.Pkg != nil && strings.HasPrefix(leaf, "G:"+c.fn.Pkg.Pkg.Path()+".") {
+			// when a package initializer starts, the package's variables still hold their zero values
+			if z := zeroOfSort(sort); z != "" {
+				func() {
+					defer func(q, b int) { c.quant, c.curTopBlock = q, b }(c.quant, c.curTopBlock)
+					c.quant, c.curTopBlock = 0, -1
+					c.assumeAlways(eq(name, z))
+				}()
+			}
+		}
 	}
 	if c.compSorts == nil {
 		c.compSorts = map[string]string{}
@@ -501,6 +511,23 @@ func (c *Ctx) H(st *State, leaf, sort string) string {
 	// note: not stored into st.heap so that every state derived from the same
 	// epoch agrees on that version.
 	return name
+}
+
+// zeroOfSort: the zero value of a scalar sort ("" if there is no simple term).
+func zeroOfSort(sort string) string {
+	switch sort {
+	case "Int":
+		return "0"
+	case "Bool":
+		return "false"
+	case "Str":
+		return "(mkStr 0 0 0)"
+	case "Slice":
+		return "(mkSlice 0 0 0 0)"
+	case "Iface":
+		return "(mkIface 0 0)"
+	}
+	return ""
 }
 
 // refBoundAxiom: a heap component version of unknown content holds only references below the
